@@ -403,7 +403,75 @@ def rule_Y11(ctx) -> None:
             ctx.proved("Y11", name, T_BODY, ast.unparse(rets[0])[:60])
 
 
+def rule_Y12(ctx, rule: str = "Y12") -> None:
+    """whatever the typing compiler in force makes of a Timestamp / Duration annotation, the module imports the name it uses:
+    FieldCompiler.datetime_imports, evaluated by constant propagation at every annotation shape (plain, optional, repeated, map
+    value) that each of the three typing compilers produces for `datetime` and `timedelta`, contains that name.  The shapes
+    are the folded results of the compilers' own methods (the PEP 604 compiler quotes its unions: '"datetime | None"')"""
+    from .. import concrete
+    from ..absint import Interp
+    from ..sym import A, C, N, show
+    mod = ctx.repo.mod(M_MODELS)
+    fn = mod.func("FieldCompiler.datetime_imports")
+    ctx.analysed("FieldCompiler.datetime_imports")
+    shapes = TypingShapes(ctx.repo)
+    n = 0
+    for comp in TypingShapes.COMPILERS:
+        bad = unknown = None
+        for base in ("datetime", "timedelta"):
+            anns = [("plain", base), ("optional", shapes.apply(comp, "optional", [base])[0]), ("repeated", shapes.apply(comp, "list", [base])[0]),
+                    ("map value", shapes.apply(comp, "dict", ["str", base])[0])]
+            for what, ann in anns:
+                paths = [p for p in Interp(mod, bindings={A(N("self"), "annotation"): ann}, fork_ifexp=True).run(fn) if p.outcome == "return" and p.value is not None]
+                ctx.count(len(paths))
+                n += 1
+                if len(paths) != 1:
+                    unknown = unknown or f"{ann!r}: {len(paths)} returning paths (the membership tests do not fold)"
+                    continue
+                p = paths[0]
+                v = p.value
+                got = None
+                if v[0] == "call" and show(v[1]) in ("set", "builtins.set") and not v[2]:
+                    # the local set that the function fills: its members are the constants added on this path
+                    got = set()
+                    for e in p.events:
+                        if e.kind == "call" and e.data[1][0] == "a" and e.data[1][1] == v and e.data[1][2] in ("add", "update"):
+                            try:
+                                x = concrete.ev(e.data[2][0], {})
+                            except concrete.Unknown as exc:
+                                unknown = unknown or f"{ann!r}: {exc}"
+                                got = None
+                                break
+                            got |= {x} if e.data[1][2] == "add" else set(x)
+                else:
+                    try:
+                        got = concrete.ev(v, {})
+                    except concrete.Unknown as exc:
+                        unknown = unknown or f"{ann!r}: result {show(v)[:80]} not evaluable ({exc})"
+                if got is None:
+                    continue
+                try:
+                    has = base in got
+                except TypeError:
+                    unknown = unknown or f"{ann!r}: result {got!r} is not a container"
+                    continue
+                if not has:
+                    bad = bad or (what, base, ann, got)
+        name = f"datetime-imports:cover-annotation-shapes[typing.{comp}]"
+        if bad:
+            what, base, ann, got = bad
+            ctx.refuted(rule, name, f"{ann}->{sorted(got)}", mod.loc(fn), f"for the {what} annotation {ann!r} (typing.{comp}) datetime_imports yields {sorted(got)!r}: `{base}` is not imported although the "
+                        "annotation (and, for an optional field, its default) names it, so the generated module fails when its type hints are resolved", f"an optional google.protobuf.{'Timestamp' if base == 'datetime' else 'Duration'} field, typing.{comp}")
+        elif unknown:
+            ctx.inconclusive(rule, name, unknown[:300], mod.loc(fn))
+        else:
+            ctx.proved(rule, name, mod.loc(fn), "plain / optional / repeated / map value x datetime / timedelta")
+    ctx.floor(rule, "annotation shapes evaluated", n, 24)
+
+
 def run(ctx) -> None:
+    ctx.rules_run.append("Y12")
+    rule_Y12(ctx)
     ctx.rules_run += ["Y1", "Y2", "Y3", "Y4", "Y5", "Y6", "P3(pydantic)", "Y11"]
     rule_Y11(ctx)
     template.rule_Y1(ctx, full=ctx.tier == "thorough")
